@@ -196,6 +196,58 @@ def job_exec(args):
         return dict(ok=False, error=traceback.format_exc(), payload=repr(spec)[:500])
 
 
+def _world_log(plan):
+    from sim import driver
+    r = driver.in_child(driver.run_world, (plan, True), timeout=600)
+    return dict(log=r['log'], oracle_log=r['oracle_log'], digest=r['digest'])
+
+
+def job_hash(spec):
+    """One world executed in two interpreters that differ in PYTHONHASHSEED
+    (this pool worker, and a fresh interpreter): string-hash order is the one
+    source of run-to-run variation that cannot be changed inside a running
+    interpreter.  Every observation of the history (reports, option files,
+    BASIC files, numbers) and every oracle evaluation must have the same
+    digest in both."""
+    from sim import seams as S
+    try:
+        S.reset_faults()
+        t0 = time.time()
+        world, hs = spec['world'], spec['hashseed']
+        a = _world_log(world)
+        fd, path = tempfile.mkstemp(prefix='hashworld', suffix='.json', dir=spec.get('scratch'))
+        try:
+            with os.fdopen(fd, 'w') as f:
+                json.dump(world, f)
+            env = dict(os.environ)
+            env['VERIF_SIM_HASHSEED'] = str(hs)
+            env['PYTHONHASHSEED'] = str(hs)
+            p = subprocess.run([sys.executable, os.path.abspath(__file__), 'worldlog', path],
+                               capture_output=True, text=True, env=env, timeout=900)
+        finally:
+            os.unlink(path)
+        if p.returncode != 0:
+            return dict(ok=False, error='worldlog subprocess failed: ' + p.stderr[-1500:], payload=repr(spec)[:300])
+        b = json.loads(p.stdout.strip().split('\n')[-1])
+        S.fired('hashseed_exec')
+        viol = []
+        for i, (x, y) in enumerate(zip(a['log'], b['log'])):
+            if x != y:
+                op = x.split(' ')[2].split(':')[0] if len(x.split(' ')) > 2 else '?'
+                viol.append(dict(clause='H5', observable='hashseed.' + op,
+                                 detail='history step %d differs between interpreters with PYTHONHASHSEED=%s and %s: %s / %s'
+                                        % (i, os.environ.get('PYTHONHASHSEED'), hs, x, y)))
+                break
+        if not viol and a['oracle_log'] != b['oracle_log']:
+            d = sorted(set(a['oracle_log']) ^ set(b['oracle_log']))
+            viol.append(dict(clause='H5', observable='hashseed.fresh',
+                             detail='fresh evaluation differs between interpreters with other PYTHONHASHSEED: %s' % d[:2]))
+        return dict(ok=True, violations=viol, faults=dict(S.FAULTS), steps=len(a['log']),
+                    plan=dict(kind='hashseed', world=world, hashseed=hs), wall=time.time() - t0)
+    except Exception:
+        return dict(ok=False, error=traceback.format_exc(), payload=repr(spec)[:300])
+
+
 # -------------------------------------------------------------- aggregation
 
 class Agg:
@@ -220,6 +272,8 @@ class Agg:
         self.samples = []
         self.exec_runs = 0
         self.real_runs = 0
+        self.hash_worlds = 0
+        self.hash_steps = 0
         self.digests = {}
         self.lines = set()
         self.traced_worlds = 0
@@ -255,6 +309,18 @@ class Agg:
         if r.get('lines'):
             self.lines |= r['lines']
             self.traced_worlds += 1
+
+    def add_hash(self, r):
+        if not r.get('ok'):
+            self.errors.append(r.get('error', '?'))
+            return
+        self.hash_worlds += 1
+        self.hash_steps += r['steps']
+        self.evaluations += r['steps']
+        for k, v in r['faults'].items():
+            self.faults[k] = self.faults.get(k, 0) + v
+        if r['violations']:
+            self.violations.append(dict(kind='hashseed', plan=r['plan'], violations=r['violations']))
 
     def add_exec(self, r):
         if not r.get('ok'):
@@ -320,6 +386,12 @@ def run_plan_fresh(plan):
         if not r.get('ok'):
             raise driver.HarnessError(r.get('error'))
         return r
+    if plan.get('kind') == 'hashseed':
+        r = job_hash(dict(world=plan['world'], hashseed=plan['hashseed']))
+        if not r.get('ok'):
+            raise driver.HarnessError(r.get('error'))
+        r['digest'] = hashlib.sha256(json.dumps(r['violations'], sort_keys=True).encode()).hexdigest()
+        return r
     return driver.in_child(driver.run_world, (plan,), timeout=600)
 
 
@@ -333,6 +405,9 @@ def minimise(item, budget_c=300, budget_s=90):
         r = run_plan_fresh(p)
         return any(shrink.obs_class(v['observable']) == target for v in r['violations'])
 
+    if plan.get('kind') == 'hashseed':
+        w = shrink.shrink(plan['world'], target, lambda p: fails(dict(plan, world=p)), max_cand=60, max_s=budget_s)
+        return dict(plan, world=w), target
     if plan.get('kind') == 'exec':
         # only the command line can be reduced
         cur = copy.deepcopy(plan)
@@ -479,8 +554,14 @@ def run_tier(tier, seed, workers, budget_s, n_worlds, n_exec, n_real, n_traced=0
                 if i < len(floor_exec):
                     spec.update(floor_exec[i])
                 futs[ex.submit(job_exec, spec)] = 'exec'
-            for p in gen.floor_plans(seed, tier):
+            fl = gen.floor_plans(seed, tier)
+            for p in fl:
                 futs[ex.submit(job_world, ('plan', p))] = 'world'
+            # the short floor worlds (every load kind x environment x API /
+            # CLI) once more in an interpreter with another string-hash seed
+            short = [p for p in fl if len(p['tasks']) == 1 and sum(len(t['ops']) for t in p['tasks']) <= 40][:48]
+            for j, p in enumerate(short if tier != 'quick' else short[::2]):
+                futs[ex.submit(job_hash, dict(world=p, hashseed=rng.randrange(1, 4294967295), scratch=scratch))] = 'hash'
             for j in range(n_traced):
                 futs[ex.submit(job_world, ('traced', (seed * 1000003 + 800000 + j, tier)))] = 'world'
             i = 0
@@ -508,6 +589,8 @@ def run_tier(tier, seed, workers, budget_s, n_worlds, n_exec, n_real, n_traced=0
                     r = f.result()
                     if kind == 'exec':
                         agg.add_exec(r)
+                    elif kind == 'hash':
+                        agg.add_hash(r)
                     else:
                         agg.add_world(r)
                     done_count += 1
@@ -568,7 +651,7 @@ EXPECTED_PROBES = ['srm_flip', 'skin_asymptote_flip', 'revisit', 'near_then_far'
                    'history_contains_raise', 'stale_file_longer_than_new', 'geo_all_ge2_not_all',
                    'multi_media_far_field', 'sweep_negative_increment', 'round_frequencies',
                    'int_typed_frequency', 'mid_model', 'model:fault_floor', 'model:round_floor',
-                   'model:tolerance_floor', 'model:regime_floor', 'model:twin_floor', 'model:near_miss_junction',
+                   'model:tolerance_floor', 'model:regime_floor', 'model:twin_floor', 'model:option_floor', 'project_frequency', 'model:near_miss_junction',
                    'model:near_miss_ground_contact']
 
 
@@ -629,6 +712,9 @@ def write_evidence(agg, tier, seed, wall, nviol, nknown, selftest):
         distinct_transitions=len(agg.transitions),
         distinct_schedules=len(agg.schedules),
         exec_level_runs=agg.exec_runs,
+        hashseed_worlds=dict(worlds=agg.hash_worlds, steps_compared=agg.hash_steps,
+                             note='whole floor worlds run once more in a fresh interpreter with another '
+                                  'PYTHONHASHSEED; every observation digest must agree'),
         unpatched_real_runs=agg.real_runs,
         ulp_diffs=agg.ulp,
         plain_vs_perturbed=agg.by_config,
@@ -745,6 +831,10 @@ def main():
     seed = int(os.environ.get('VERIF_SEED', '1'))
     if a.setup:
         return cmd_setup()
+    if a.what == 'worldlog':
+        _import_target()
+        print(json.dumps(_world_log(json.load(open(a.rest[0])))))
+        return 0
     if a.what == 'digests':
         return cmd_digests(int(a.rest[0]), int(a.rest[1]))
     if a.what == 'selftest':
